@@ -7,10 +7,11 @@ Models: `ClvmModel/Serde/Classic.lean` (`node_from_stream`, `serialized_length_f
 is shared, as in the Rust.  Specification: `serSpec`, `treeHash`.
 -/
 import ClvmProofs.Lemmas.ClassicAgree
+import ClvmProofs.Lemmas.TreeHashTriples
 
 namespace Clvm.Props.C16
 open Clvm Clvm.Serde.Classic
-open Clvm.TreeHash (treeHash treeHashFromStream)
+open Clvm.TreeHash (treeHash treeHashFromStream parseTriples hashList nodes)
 
 /-! ### totality: no panic site is reachable, the fuel of the model loops suffices -/
 
@@ -67,6 +68,40 @@ theorem thash_stream_accepts_iff (b : Bytes) :
   cases nodeFromStream b [.sexp] [] with
   | error e => simp
   | ok r => obtain ⟨t, rest⟩ := r; simp
+
+/-! ### `parse_triples` agrees with `node_from_stream`
+
+These two statements rest on the lock-step lemmas proved for C22 by the tree-hash component
+(`ClvmProofs/Lemmas/TreeHashTriples.lean`: `parseTriples_of_decodes`, `decodes_of_parseTriples`).
+PARTIAL with respect to C16's "describe the same tree": the number of triples and all sub-tree
+hashes are characterised, the byte offsets stored in the triples (`start`, `end`, `atom_offset`,
+`right_index`) and the `calculate_tree_hashes = false` variant are not; those are covered by the
+implementation-only oracle `classic_decoders` (triples read back from the buffer) and the
+`thash_stream` correspondence stream. -/
+
+/-- whenever `node_from_stream` decodes `t`, `parse_triples(f, true)` succeeds, leaves the same
+unread remainder (consumes the same bytes), returns one triple per node of `t` and the tree
+hashes of all sub-trees of `t` in pre-order (the first one is `treeHash t`) -/
+theorem triples_agree_partial (b : Bytes) (t : Tree) (rest : Bytes)
+    (h : nodeFromStream b [.sexp] [] = .ok (t, rest)) :
+    ∃ ts, ts.length = nodes t ∧ parseTriples b true = .ok (ts, some (hashList t), rest) :=
+  Clvm.TreeHash.parseTriples_of_decodes b t rest h
+
+/-- `parse_triples(f, true)` and `node_from_bytes` succeed on exactly the same inputs -/
+theorem triples_accepts_iff (b : Bytes) :
+    (∃ ts hs r, parseTriples b true = .ok (ts, hs, r)) ↔ (∃ t, nodeFromBytes b = .ok t) := by
+  constructor
+  · intro ⟨ts, hs, r, h⟩
+    obtain ⟨t, ht, _⟩ := Clvm.TreeHash.decodes_of_parseTriples b ts hs r h
+    exact ⟨t, by unfold nodeFromBytes; rw [ht]⟩
+  · intro ⟨t, h⟩
+    unfold nodeFromBytes at h
+    cases hn : nodeFromStream b [.sexp] [] with
+    | error e => rw [hn] at h; cases h
+    | ok p =>
+      obtain ⟨t', rest⟩ := p
+      obtain ⟨ts, _, e⟩ := Clvm.TreeHash.parseTriples_of_decodes b t' rest hn
+      exact ⟨ts, _, rest, e⟩
 
 /-! ### canonical ⇔ one tree whose re-serialization is the input -/
 
